@@ -9,8 +9,10 @@ import (
 	"encoding/base64"
 	"encoding/binary"
 	"fmt"
+	"io"
 	"net"
 	"os"
+	"strings"
 	"sync"
 	"testing"
 	"time"
@@ -158,7 +160,36 @@ func TestVfC01Listeners(t *testing.T) {
 			var r *Resp
 			var err error
 			b64 := base64.RawURLEncoding.EncodeToString(hostile)
+			if kind != "https" && rapid.IntRange(0, 3).Draw(t, "rawHTTP") == 0 {
+				// hand-written HTTP/1.1 that no well-behaved client library would send
+				raws := []string{
+					"POST /dns-query HTTP/1.1\r\nHost: x\r\nContent-Type: application/dns-message\r\n\r\n",
+					"POST /dns-query HTTP/1.1\r\nHost: x\r\nContent-Type: application/dns-message\r\nTransfer-Encoding: chunked\r\n\r\n" + fmt.Sprintf("%x\r\n%s\r\n0\r\n\r\n", len(hostile), hostile),
+					"POST /dns-query HTTP/1.1\r\nHost: x\r\nContent-Type: application/dns-message\r\nTransfer-Encoding: chunked\r\n\r\nffffffffffffffff\r\n",
+					"POST /dns-query HTTP/1.1\r\nHost: x\r\nContent-Type: application/dns-message\r\nContent-Length: 5000\r\n\r\n" + string(hostile),
+					"POST /dns-query HTTP/1.1\r\nHost: x\r\nContent-Type: application/dns-message\r\nContent-Length: -1\r\n\r\n" + string(hostile),
+					"POST /dns-query HTTP/1.0\r\nContent-Type: application/dns-message\r\n\r\n" + string(hostile),
+					"GET /dns-query?dns=" + b64 + " HTTP/1.1\r\nAccept: application/dns-message\r\n\r\n",
+					"GET /dns-query?dns=" + b64 + " HTTP/1.1\r\nHost: x\r\nAccept: application/dns-message\r\nContent-Length: 3\r\n\r\nabc" + "GET /dns-query?dns=" + b64 + " HTTP/1.1\r\nHost: x\r\n\r\n",
+					"GET " + strings.Repeat("/a", 5000) + "?dns=" + b64 + " HTTP/1.1\r\nHost: x\r\n\r\n",
+					"\x16\x03\x01\x02\x00\x01\x00\x01\xfc\x03\x03" + string(hostile),
+					"PRI * HTTP/2.0\r\n\r\nSM\r\n\r\n" + string(hostile),
+				}
+				ri := rapid.IntRange(0, len(raws)-1).Draw(t, "rawIdx")
+				what = fmt.Sprintf("%s raw HTTP/1.1 request #%d (class %s)", kind, ri, class)
+				rc, derr := net.DialTimeout("tcp", a.addr(kind), 2*time.Second)
+				if derr != nil {
+					t.Fatalf("%s dial: %v", kind, derr)
+				}
+				rc.Write([]byte(raws[ri]))
+				rc.SetReadDeadline(time.Now().Add(150 * time.Millisecond))
+				io.Copy(io.Discard, rc)
+				rc.Close()
+				variant = "raw"
+			}
 			switch variant {
+			case "raw":
+				err = fmt.Errorf("raw request: no response oracle beyond the canary")
 			case "get-hostile":
 				r, err = c.DoRaw("GET", "dns="+b64, nil, map[string]string{"Accept": "application/dns-message"})
 			case "get-missing":
@@ -285,16 +316,61 @@ func TestVfC01UpstreamReplies(t *testing.T) {
 	if p.Exited() {
 		t.Fatalf("proxy exited: %s", tail(p.Stderr(), 2000))
 	}
+	// Boundary tier, run once per process before the generated cases: every upstream kind gets a reply of 0, 1, 2, 3 and 11
+	// octets (all in flight together, so the slow kinds cost one time-out in total). Oracle as below: SERVFAIL, proxy alive.
+	{
+		var wg sync.WaitGroup
+		var mu sync.Mutex
+		var bad []string
+		for ki, kind := range kinds {
+			for _, n := range []int{0, 1, 2, 3, 11} {
+				ki, kind, n := ki, kind, n
+				label := fmt.Sprintf("t%dk%dp%d", n, ki, os.Getpid())
+				scripts.Store(label, func(q *UpQuery) UpAction {
+					b := make([]byte, n)
+					copy(b, q.Raw) // the right ID where it fits
+					return UpAction{Reply: b}
+				})
+				wg.Add(1)
+				go func() {
+					defer wg.Done()
+					defer scripts.Delete(label)
+					a := NewAsker(block+"10", "")
+					defer a.Close()
+					res := a.Ask("tcp", Query(uint16(1000+ki*16+n), vfkit.Name{[]byte(label), []byte("k" + itoa(ki)), []byte("test")}, 1, 1, false), 9*time.Second, 0)
+					if len(res.Resps) != 1 || !res.Resps[0].Msg.Clean() || res.Resps[0].Msg.Rcode() != 2 {
+						mu.Lock()
+						bad = append(bad, fmt.Sprintf("upstream %s reply of %d octets: %d responses", kind, n, len(res.Resps)))
+						mu.Unlock()
+					}
+					st.Case(vfkit.Fingerprint(kind, "tiny-sweep", []byte{byte(n)}), true, []string{"upstream=" + kind, "variant=tiny-sweep"}, func() any {
+						return map[string]any{"upstream": kind, "variant": "tiny-sweep", "octets": n}
+					})
+				}()
+			}
+		}
+		wg.Wait()
+		if p.Exited() || p.Crashed() != "" {
+			t.Fatalf("the proxy died during the boundary tier (upstream replies of 0..11 octets)\n%s", tail(p.Stderr(), 3000))
+		}
+		if len(bad) > 0 {
+			t.Fatalf("boundary tier: no single clean SERVFAIL after %v", bad)
+		}
+	}
 	seq := 0
 	rapid.Check(t, func(t *rapid.T) {
 		seq++
 		ki := rapid.IntRange(0, len(kinds)-1).Draw(t, "upstream")
 		kind := kinds[ki]
 		body, class := vfkit.GenHostile(t)
-		variant := rapid.SampledFrom([]string{"body", "body-right-id", "lying-prefix", "half-frame-close", "http-500", "huge", "close"}).Draw(t, "variant")
+		variant := rapid.SampledFrom([]string{"body", "body-right-id", "tiny", "lying-prefix", "half-frame-close", "http-500", "huge", "close"}).Draw(t, "variant")
+		if variant == "tiny" {
+			// a reply of 0..3 octets: an empty datagram, a zero-length frame, an empty 200 body
+			body, class = rapid.SliceOfN(rapid.Byte(), 0, 3).Draw(t, "tinyBody"), "tiny"
+		}
 		label := fmt.Sprintf("h%dp%d", seq, os.Getpid())
 		scripts.Store(label, func(q *UpQuery) UpAction {
-			b := append([]byte(nil), body...)
+			b := append([]byte{}, body...) // never nil: an empty reply is still a reply
 			switch variant {
 			case "body-right-id":
 				if len(b) >= 2 {
@@ -346,7 +422,7 @@ func TestVfC01UpstreamReplies(t *testing.T) {
 		isHTTP := kind == "https" || kind == "h3"
 		var delivered []byte
 		switch {
-		case variant == "body" || variant == "body-right-id" || (variant == "http-500" && !isHTTP):
+		case variant == "body" || variant == "body-right-id" || variant == "tiny" || (variant == "http-500" && !isHTTP):
 			delivered = body
 		case isHTTP && variant == "lying-prefix":
 			delivered = append([]byte{0x7f, 0xff}, body...)
